@@ -2,7 +2,6 @@
             fn pow_nontrivial(ring: &$ring, raw: $raw, exp_words: &[Word]) -> $raw
             /*@
                 requires p_wf(ring), p_ok(ring, raw), 1 <= exp_words@.len() <= usize::MAX,
-                    p_m(ring) >= 2 || exp_words@[exp_words@.len() - 1] != 0,     // (see pow_word; a Repr's top word is never 0)
                 ensures p_ok(ring, ret),
                     p_res(ring, ret) == ipow(p_res(ring, raw), val(exp_words@)) % p_m(ring),
             @*/
